@@ -492,6 +492,159 @@ func checkC10(c *core.Ctx) {
 		c.Extra("library_level", "skipped: worker does not build against the current tree")
 		return
 	}
+	// chords that spell the same digits when degree, symbol and bass are run together (17 + "" / 1 + "7"), in one text
+	c.Stream("collide", c.N(120, 2000), func(i int, r *rand.Rand) {
+		p := collisionPiece(r)
+		text, ok := p.DegreeTextPiece(model.TextOpts{Underscore: true})
+		if !ok {
+			c.Inconclusive("harness: collision piece not expressible in degree text")
+			return
+		}
+		det := map[string]any{"text": text}
+		conv := run(c, []byte(text), "text", "conv", "degree")
+		c.Eval(1)
+		if infra(c, conv) {
+			return
+		}
+		if a := abnormal(conv); a != "" || !conv.OK() {
+			c.Violate("collide", i, "collide:conv-failed", "text conv degree refuses "+qs([]byte(text))+" "+a, mergeMaps(det, map[string]any{"run": obs(conv)}))
+			return
+		}
+		doc := conv.Stdout
+		if i%2 == 1 {
+			cv := run(c, doc, "write", "conv", "-c", "cmt")
+			c.Eval(1)
+			if infra(c, cv) {
+				return
+			}
+			if a := abnormal(cv); a != "" || !cv.OK() {
+				c.Violate("collide", i, "collide:writeconv-failed", "write conv refuses what text conv printed "+a, mergeMaps(det, map[string]any{"run": obs(cv)}))
+				return
+			}
+			doc = cv.Stdout
+		}
+		w := run(c, doc, "write")
+		c.Eval(1)
+		if infra(c, w) {
+			return
+		}
+		if a := abnormal(w); a != "" || !w.OK() {
+			c.Violate("collide", i, "collide:write-failed", "crd write refuses the converted text "+a, mergeMaps(det, map[string]any{"run": obs(w)}))
+			return
+		}
+		file, derr := decodeSMF(w.Stdout)
+		if file == nil {
+			c.Violate("collide", i, "collide:decode", derr, det)
+			return
+		}
+		runs := chordRuns(file)
+		k := 0
+		for j, in := range p.Inst {
+			if in.Chord == nil {
+				continue
+			}
+			want, _ := model.ExpectedNotes(*in.Chord, "C")
+			if k >= len(runs) || !eqInts(sortedInts(runs[k]), sortedInts(want)) {
+				var got []int
+				if k < len(runs) {
+					got = sortedInts(runs[k])
+				}
+				c.Violate("collide", i, "collide:notes", fmt.Sprintf("text %s: chord %d (degree %s, symbol %q) sounds %v after the round trip, written %v", qs([]byte(text)), j, in.Chord.Deg.Notation(), in.Chord.Symbol, got, sortedInts(want)), det)
+				return
+			}
+			k++
+		}
+		c.Nontrivial(text)
+	})
+
+	// outputs whose length is an exact multiple of common buffer sizes: the printed document is complete
+	blockTargets := []int{65536, 131072, 32768, 65535, 65537, 49152, 196608, 262144}
+	c.Stream("blocksize", len(blockTargets)*3, func(i int, r *rand.Rand) {
+		target := blockTargets[i%len(blockTargets)]
+		mode := i / len(blockTargets) // 0: text conv to stdout, 1: text conv -o, 2: write conv -c cmt
+		// l bytes of lyric spread over a fixed number of chords (one giant token would leave the promptness domain)
+		const nChords = 300
+		mk := func(l int) []byte {
+			var b strings.Builder
+			for k := 0; k < nChords; k++ {
+				n := l / nChords
+				if k == nChords-1 {
+					n = l - (nChords-1)*(l/nChords)
+				}
+				if mode == 2 {
+					b.WriteString("- chord: {degree: \"1\", name: \"m7\"}\n  values: [1]\n  meta: {lic: \"" + strings.Repeat("x", n) + "\"}\n")
+				} else {
+					b.WriteString("1m7[1]{lic=" + strings.Repeat("x", n) + "}\n")
+				}
+			}
+			if mode == 2 {
+				b.WriteString("- chord: {degree: \"5\", name: \"7\"}\n  values: [2]\n")
+			} else {
+				b.WriteString("5_7[2]")
+			}
+			return []byte(b.String())
+		}
+		produce := func(l int) (*runner.Result, []byte) {
+			switch mode {
+			case 0:
+				res := run(c, mk(l), "text", "conv", "degree")
+				return res, res.Stdout
+			case 1:
+				path := c.Scratch.Path("block.yml")
+				res := run(c, mk(l), "text", "conv", "degree", "-o", path)
+				return res, readFileOrNil(path)
+			default:
+				res := run(c, mk(l), "write", "conv", "-c", "cmt")
+				return res, res.Stdout
+			}
+		}
+		// the output grows by one byte per lyric byte: measure once, then aim
+		l := max(target/2, nChords)
+		res, out := produce(l)
+		c.Eval(1)
+		if infra(c, res) || !res.OK() || len(out) == 0 {
+			return
+		}
+		l += target - len(out)
+		if l < 1 {
+			return
+		}
+		res, out = produce(l)
+		c.Eval(1)
+		if infra(c, res) {
+			return
+		}
+		det := map[string]any{"target_bytes": target, "lyric_bytes": l, "mode": mode, "output_bytes": len(out), "run": obs(res)}
+		if a := abnormal(res); a != "" || !res.OK() {
+			c.Violate("blocksize", i, "blocksize:failed", fmt.Sprintf("conversion fails for an output of about %d bytes %s", target, a), det)
+			return
+		}
+		// folding of the long scalar may shift the length by a few bytes: the point is completeness at whatever length results
+		lst, err := yamlList(out)
+		if err != nil || len(lst) != nChords+1 {
+			c.Violate("blocksize", i, fmt.Sprintf("blocksize:%d:incomplete", target), fmt.Sprintf("a printed document of %d bytes (aimed at %d) is not the complete list of %d instances (err=%v, %d instances)", len(out), target, nChords+1, err, len(lst)), det)
+			return
+		}
+		total := 0
+		for _, e := range lst[:nChords] {
+			m0, _ := e.(map[string]any)
+			mm, _ := m0["meta"].(map[string]any)
+			got := asStr(mm["lic"])
+			if strings.Trim(got, "x") != "" {
+				total = -1 << 30
+			}
+			total += len(got)
+		}
+		if total != l {
+			c.Violate("blocksize", i, fmt.Sprintf("blocksize:%d:lyric", target), fmt.Sprintf("a printed document of %d bytes: the lyrics read back have %d bytes, written %d", len(out), total, l), det)
+			return
+		}
+		c.Seen("printed_sizes", fmt.Sprint(len(out)))
+		if len(out) == target {
+			c.Nontrivial(fmt.Sprintf("block%d/%d", target, mode))
+		}
+	})
+
 	c.Stream("scalars", 16, func(sh int, r *rand.Rand) { scalarShard(c, sh, r) })
 }
 
